@@ -15,6 +15,8 @@ open Nebula.Net Nebula.Cert
 /-- Validity is the closed interval `[notBefore, notAfter]`. -/
 def validAt (c : Cert) (t : Int) : Prop := c.notBefore ≤ t ∧ t ≤ c.notAfter
 
+instance (c : Cert) (t : Int) : Decidable (validAt c t) := by unfold validAt; exact inferInstance
+
 /-- CA range `m` covers the assignment `n`: `n` is a well-formed prefix, its address lies in `m`, and `m` is
 not more specific than `n`. -/
 def covers (m n : Prefix) : Prop :=
